@@ -11,7 +11,8 @@ RULE = ('base cases (model, per-rank batches, hyper-parameters, history of whole
         'symmetry on/off) on 1–8 simulated ranks under perturbed schedules: the gradients of every rank and every '
         'variant are compared with each other, with the model\'s value terms (which the Lean theorem shows do not '
         'depend on the placement) and with single-process K-FAC on the union of the per-rank batches; '
-        'non-trivial = world>1 and ≥2 placement variants and ≥2 steps')
+        'non-trivial = world>1 and ≥2 placement variants and ≥2 steps'
+        ' (directed corners: pre-divided products with varying damping and interval > 1; explicit inverses of float32 factors)')
 TRUSTED = [
     'Lean 4.33 kernel; axioms audited ⊆ {propext, Classical.choice, Quot.sound}',
     'hand-written model KV.Precond tied to the real preconditioner by this correspondence (value terms evaluated in float64)',
